@@ -61,7 +61,14 @@ func VerifHarness_CastPath() {
 		return
 	}
 	herrors.VerifTag("__ignore_panic", "C02")
-	o := verifRunVM(an, nil, nil, verifLimits, newVerifCtx())
+	backend := herrors.VerifNdIntRange("backend", 0, 1)
+	herrors.VerifTag("backend", []string{"vm", "tree"}[backend])
+	var o verifOutcome
+	if backend == 0 {
+		o = verifRunVM(an, nil, nil, verifLimits, newVerifCtx())
+	} else {
+		o = verifRunTree(an, nil, nil, 100, newVerifCtx())
+	}
 	herrors.VerifReached("ran")
 	herrors.VerifAssert("cast-error-caught", o.class == "ok" && !verifContains(o.out, "not reached"))
 	herrors.VerifAssert("cast-error-names-offending-path", verifContains(o.out, t.path))
